@@ -3,7 +3,7 @@
 COMPONENTS = {
     'real': ['bloomsearch engine (ingest actor, flush worker, query pipeline, merge) from /repo working tree, instrumented copy',
              'MemoryMetaStore', 'FileSystemDataStore (over simos)', 'encoding/json, gjson, bits-and-blooms, klauspost/compress',
-             'Go runtime scheduler on one P (select order, map order, rand, mutex blocking patched via overlay)'],
+             'Go runtime scheduler on one P (select order, map seeds and iteration order, rand and math/rand streams, mutex blocking and starvation switch, time-slice preemption patched via overlay)'],
     'simulated': ['DataStore (SimDisk)', 'MetaStore (SimMeta) and gate wrappers around the real MetaStores', 'package os under FileSystemDataStore (simos)',
                   'clock/timers/deadlines (testing/synctest fake clock)', 'contexts with late AfterFunc (SimCtx)', 'done-channel receivers', 'callers (client actors)'],
 }
